@@ -522,7 +522,7 @@ Print shutdown. Print all_ok.
             return
         for k in res:
             res[k] += [s0 + i for i in part[k]]
-        pairs = re.findall(r"\((\d+)(?:%nat)?, (\d+)(?:%nat)?\)", rp)
+        pairs = re.findall(r"\(\s*(\d+)(?:%nat)?\s*,\s*(\d+)(?:%nat)?\s*\)", rp)
         for i, (a, b) in enumerate(pairs):
             rej[s0 + i] = (int(a), int(b))
 
